@@ -18,7 +18,7 @@ PROPS = {
     "C13": {"level": "proof", "lemma_files": ["contracts/path_laws.py"], "conformance": ["str"]},
     "C14": {"level": "proof", "lemma_files": ENGINE + ["contracts/state_index.py"], "conformance": []},
     "C15": {"level": "proof", "lemma_files": ENGINE, "conformance": [], "static": ["contracts.static_lock.lock_discipline"]},
-    "C16": {"level": "exploration", "lemma_files": [], "conformance": [], "bounded": ["contracts.bounded_providers.run"],
+    "C16": {"level": "exploration", "lemma_files": ["contracts/provider_laws.py"], "conformance": [], "bounded": ["contracts.bounded_providers.run"],
             "explanation": "bounded: provider operation sequences against a reference tree, hash law per size class, identity check"},
     "C17": {"level": "proof", "lemma_files": ENGINE + ["contracts/state_index.py"], "conformance": []},
     "C18": {"level": "proof", "lemma_files": ENGINE, "conformance": []},
